@@ -197,7 +197,7 @@ def sibling_cases(rnd, tier):
     pairs3 = decl_pairs(3)
     maps3 = [m for m in inj_maps(f3, ["k1"]) if sum(t is not None for t in m) >= 2]
     kinds3 = [kd for kd in itertools.product(KINDS, repeat=3) if sum(x is not None for x in kd) >= 2]
-    n3 = 160 if tier == "quick" else 2400
+    n3 = 160 if tier == "quick" else 2000
     for _ in range(n3):
         kinds = rnd.choice(kinds3)
         combo = rnd.choice(maps3)
